@@ -684,6 +684,41 @@ fn families(thorough: bool) -> Vec<Prog> {
             });
         }
     }
+    // ---- closures made in different passes of a loop written at *top level* (and in a block, a
+    //      function, a branch): a name declared in the body - a cell with a constant / typed /
+    //      computed initial value among them - is declared anew on every pass, so each closure keeps
+    //      the one of its own pass ("captured cells stay shared" is about one cell, not one spelling)
+    for (wname, wrap) in [("top level", "LOOP"), ("block", "{ LOOP }"), ("branch", "if nc == 7 { LOOP }"), ("function", "wf := () { LOOP }; wf()")] {
+        for (lname, lp) in [
+            ("while", "kk := mut 0; while *kk < 3 { kk += 1; BODY }"),
+            ("for", "for ee in [1, 2, 3]~ { BODY }"),
+            ("loop", "kk := mut 0; loop { kk += 1; BODY; if *kk >= 3 { break } }"),
+        ] {
+            for (iname, init, step, want) in [
+                ("constant cell", "mut 0", "cc += 1", "(1, 2, 1, 1)"),
+                ("typed cell", "mut int 5", "cc += 1", "(6, 7, 6, 6)"),
+                ("computed cell", "mut std.len([0; 0])", "cc += 1", "(1, 2, 1, 1)"),
+                ("array cell", "mut [int] []", "cc += [1]", "([1], [1, 1], [1], [1])"),
+                ("string cell", "mut \"a\"", "cc += \"b\"", "(\"ab\", \"abb\", \"ab\", \"ab\")"),
+                ("cell in a tuple", "(mut 0, 1)", "cq := cc.0; cq += 1", "(1, 2, 1, 1)"),
+            ] {
+                let ret = if iname == "cell in a tuple" { "*(cc.0)" } else { "*cc" };
+                let body = format!("cc := {init}; fs += [() -> any {{ {step}; return {ret} }}]");
+                let text = wrap.replace("LOOP", &lp.replace("BODY", &body));
+                let mut stmts = pre(vec!["fs := mut [() -> any] []".to_string(), text]);
+                stmts.push("gs := *fs".into());
+                stmts.push("(gs[0](), gs[0](), gs[1](), gs[2]())".into());
+                let mut nm = vec!["fs", "gs"];
+                if wname == "top level" && lname != "for" {
+                    nm.push("kk");
+                }
+                if wname == "function" {
+                    nm.push("wf");
+                }
+                out.push(Prog { family: format!("closure per pass of a {lname} loop ({wname}), {iname}"), stmts, expected: Some(want.to_string()), names: with_names(&nm) });
+            }
+        }
+    }
     out
 }
 
